@@ -49,6 +49,9 @@ pub fn worker_loop(mut f: CaseFn) {
 /// Run a case inside the worker under the resource monitors; budget overruns that do not kill the
 /// process (peak allocation above the allowance, CPU above the allowance when the monitor missed it)
 /// are reported as violations here.
+/// print a heartbeat line so that the parent's wall-clock watchdog sees progress inside a long case
+pub fn heartbeat() { let o = std::io::stdout(); let mut o = o.lock(); let _ = writeln!(o, "H"); let _ = o.flush(); }
+
 pub fn monitored(idx: u64, input_len: u64, out: &mut CaseOut, counters: &mut BTreeMap<String, u64>, labels: &str, prop: &str, body: impl FnOnce(&mut CaseOut, &mut BTreeMap<String, u64>)) {
     let base = crate::mon::begin_case(idx, input_len);
     body(out, counters);
@@ -150,6 +153,7 @@ pub fn run_cases_lane(run: &Run, prop: &str, lo: u64, n: u64, chunk: u64, descri
                                 finished = true; break;
                             }
                             else if l.starts_with("X ") { xline = Some(l.to_string()); }
+                            // "H": heartbeat of a long-running case (progress for the watchdog only)
                         }
                         done.store(true, Ordering::Relaxed);
                         let _ = wd.join();
